@@ -157,6 +157,8 @@ def match_known(prop, sc, why):
         if k.get("property") != prop or k.get("status") != "open":
             continue
         sig = k.get("signature", {})
+        if "scenario" not in sig and "why" not in sig:
+            continue        # a finding identified in another way (thread schedule, sanitizer report): never matches a rejected trace
         if "scenario" in sig and not re.search(sig["scenario"], sc.name):
             continue
         if "why" in sig and not re.search(sig["why"], why):
@@ -689,6 +691,18 @@ def c17(prop, tier, seed, t0):
         else:
             seq_ok += 1
 
+    # (d) the periodic side: two interfaces of one process, ticks and frames interleaved; each interface's events are
+    # validated as a trace of their own (pacing, table and engine of one interface are none of the other's business)
+    import acampaigns
+    abin = vlib.build_automata("asan")
+    arng = random.Random(seed ^ 0xA17)
+    ascs = [acampaigns.sc_two_interfaces("c17-twoif-%d" % i, arng.randrange(1 << 30)) for i in range(3 if tier == "quick" else 40)]
+    acheck = {"C12", "C14", "C16"}
+    atot, aviol, _aknown = run_campaign(prop, acheck, ascs, seed, work, abin, module="AutomataTrace.tla")
+    for i, (sc, why) in enumerate(aviol[:4]):
+        viol.append((why, vlib.write_replay(prop, acheck, sc, why, seed, 100 + i, kind="automata")))
+    seq_events += atot["events"]
+
     for what in known:
         print("KNOWN-FINDING: property=C17 %s" % what)
     for why, rp in viol[:8]:
@@ -699,7 +713,8 @@ def c17(prop, tier, seed, t0):
            "evaluations": nsched + race_runs + seq_events, "distinct_nontrivial": nsched + seq_ok,
            "rule": "every maximal schedule of Registry.tla (threads x calls per plan) forced through the yield hooks of lltd_state_for_iface on real threads and matched "
                    "against the model by RegistryTrace.tla; TSan runs with threads released by a barrier (first frames racing / registry warmed up); pairs of random "
-                   "histories interleaved on two interfaces, each interface validated against Responder with Check=%s and compared bytewise with its solo run" % ",".join(sorted(check)),
+                   "histories interleaved on two interfaces, each interface validated against Responder with Check=%s and compared bytewise with its solo run; "
+                   "two interfaces' ticks and frames interleaved in one process, each interface's events validated as its own trace by AutomataTrace" % ",".join(sorted(check)),
            "samples": [{"forced_schedules": nsched, "matched": matched, "lost_known": lost_known, "tsan_runs": race_runs, "tsan_reports": race_reports,
                         "sequential_pairs": npairs, "sequential_ok": seq_ok}],
            "model_checking": mcs, "known_findings_seen": sorted(known), "exhaustive": False}
